@@ -722,7 +722,17 @@ def job(a):
         sc0, box0, bad0 = run_clean(layout, d, ser, TAMPER_PAYLOAD,
                                     TOPIC_A if d == "publish" else PROC_A,
                                     ERR_A if d == "error" else None, col.stats.__class__())
-        L = len(sc0.captured["last"].payload)
+        last = sc0.captured.get("last")
+        if last is None or last.payload is None:
+            # the message that should carry the ciphertext travelled without one: nothing to tamper
+            # with - that itself violates the property (clear payload on the wire)
+            col.add("C20|not-encrypted|%s|%s|%s" % (d, layout, ser),
+                    "the %s message of layout %s carries no encrypted payload (enc_algo=%r): %s" % (
+                        d, layout, getattr(last, "enc_algo", None), [b[0] for b in bad0]),
+                    {"kind": "tamper", "layout": layout, "dir": d, "ser": ser, "masks": a["masks"],
+                     "chunk": a["chunk"], "chunks": a["chunks"]})
+            return col.result() if hasattr(col, "result") else {"evals": col.evals, "viol": col.viol, "stats": dict(st)}
+        L = len(last.payload)
         positions = list(range(L))[a["chunk"]::a["chunks"]]
         for pos in positions:
             for mask in a["masks"]:
